@@ -9,12 +9,18 @@ is any list of messages (`Op`), rejected messages leave the state unchanged.
   (/ external-id) index entries, no dangling entries; payments listed under their current
   target only) holds after EVERY history; order ids strictly increase; external ids are unique
   per market; payments are unique per (source, external id); market ids are never reused.
+  Accounts have two valid text spellings (lower / upper case bech32); records keep the string as sent,
+  keys go by account bytes: a payment stays listed under its target through a re-spelling target change
+  (`setPayment_lists_current_target`, `respelled_target_stays_listed`).
 * Part B: what the prefix scans behind the lookups return.  By market, by owner and by asset:
   exactly the open orders of that market / owner / asset denom, each once (`byAsset_exact` is
   unconditional since commit bdda88322 — an index entry counts only if exactly the 8 order-id
   bytes follow the prefix).  History: `byAsset_lists_prefix_denoms_before_fix` /
   `byAsset_not_exact_before_fix` are about the pre-fix definitions (`…PreFix`): the scan for
   `apple` returned `apples` orders because the asset index key has no terminator (keys.go:765).
+  A governance closure leaves no order of the market in the records or in any lookup, whether or
+  not the market was paused before (`closeMarket_leaves_no_orders`, `closeMarket_byMarket_empty`,
+  `closeMarket_byExternalId_none`, `closeMarket_disables_creation`).
 * Part C: paging.  For every strictly sorted entry list, limit ≥ 1, hit filter, after-order
   bound and direction, following `next_key` — or advancing `offset` — through
   `filteredPaginateAfterOrder` returns every matching entry exactly once, in order, and stops.
@@ -29,6 +35,7 @@ The only hypothesis carried by Part A is that fewer than 2^64 orders are created
 counter does not wrap).
 -/
 import PvProofs.Lemmas.ExrecAux
+import PvProofs.Lemmas.ExrecClose
 import PvProofs.Lemmas.ExrecPaging
 import PvProofs.Lemmas.ExrecScan
 import Mathlib.Data.List.Perm.Subperm
@@ -93,11 +100,11 @@ theorem indexInv_all_histories (ops : List Op) (h : ops.length < 2 ^ 64) : Index
 and a retargeted payment (listed under the new target only) -/
 example :
     let s := (run init [.mkMarket 0 "m",
-      .create ⟨0, false, 1, [65], [97, 112, 112], 6, [117], 12, [120], true⟩,
-      .create ⟨0, true, 1, [66], [97, 112, 112], 2, [117], 6, [121], true⟩,
+      .create ⟨0, false, 1, [65], [97, 112, 112], 6, [117], 12, [120], true, false⟩,
+      .create ⟨0, true, 1, [66], [97, 112, 112], 2, [117], 6, [121], true, false⟩,
       .settle 1 1 2 true admin, .setExt 1 1 [122] admin,
-      .pay ⟨[65], 3, [66], 0, []⟩, .payTarget [65] [] [67]]).kv
-    getOrderFromStore s 1 = some ⟨1, false, 1, [65], [97, 112, 112], 4, [117], 8, [122], true⟩ ∧
+      .pay ⟨[65], 3, [66], 0, [], false, false⟩, .payTarget [65] [] [67]]).kv
+    getOrderFromStore s 1 = some ⟨1, false, 1, [65], [97, 112, 112], 4, [117], 8, [122], true, false⟩ ∧
     getOrderFromStore s 2 = none ∧ s.has (idxTargetToPayment [67] [65] []) = true ∧
     s.has (idxTargetToPayment [66] [65] []) = false := by decide
 
@@ -149,8 +156,8 @@ theorem orderIds_never_reused (ops : List Op) (h : ops.length < 2 ^ 64) : (creat
   exact this.imp (fun hlt => UInt64.ne_of_lt hlt)
 
 example : createdOrderIds init [.mkMarket 0 "m",
-    .create ⟨0, false, 1, [65], [97, 112, 112], 6, [117], 12, [], true⟩, .cancel 1 [65],
-    .create ⟨0, true, 1, [66], [97, 112, 112], 2, [117], 6, [], true⟩] = [1, 2] := by decide
+    .create ⟨0, false, 1, [65], [97, 112, 112], 6, [117], 12, [], true, false⟩, .cancel 1 [65] false,
+    .create ⟨0, true, 1, [66], [97, 112, 112], 2, [117], 6, [], true, false⟩] = [1, 2] := by decide
 
 /-- every order in the store was handed out by the counter: its id is between 1 and the last id -/
 theorem order_ids_bounded (ops : List Op) (h : ops.length < 2 ^ 64) : CounterInv (run init ops).kv :=
@@ -241,10 +248,10 @@ theorem createPayment_frame {s s' : Store} (hinv : IndexInv s) {p : Payment} (h 
 /-- non-vacuity, with the EMPTY external id (a valid id): the first creation is accepted, a second one
 by the same source is refused whatever its target and amounts, and the first payment stays. -/
 example :
-    let s := (run init [.pay ⟨[65], 3, [66], 0, []⟩]).kv
-    getPaymentFromStore s [65] [] = some ⟨[65], 3, [66], 0, []⟩ ∧
-    createPayment s ⟨[65], 1, [67], 2, []⟩ = none ∧
-    (run init [.pay ⟨[65], 3, [66], 0, []⟩, .pay ⟨[65], 1, [67], 2, []⟩]).kv = s := by decide
+    let s := (run init [.pay ⟨[65], 3, [66], 0, [], false, false⟩]).kv
+    getPaymentFromStore s [65] [] = some ⟨[65], 3, [66], 0, [], false, false⟩ ∧
+    createPayment s ⟨[65], 1, [67], 2, [], false, false⟩ = none ∧
+    (run init [.pay ⟨[65], 3, [66], 0, [], false, false⟩, .pay ⟨[65], 1, [67], 2, [], false, false⟩]).kv = s := by decide
 
 /-- **An accepted order creation adds one record and touches no other**: the new id had no record,
 it now holds the new order, every other order record and every payment record is what it was. -/
@@ -336,7 +343,7 @@ that id, and not found by the 99- and 101-byte ids. -/
 example :
     let x100 := List.replicate 100 121
     let s := (run init [.mkMarket 0 "m",
-      .create ⟨0, false, 1, [65], [97, 112, 112], 6, [117], 12, x100, true⟩]).kv
+      .create ⟨0, false, 1, [65], [97, 112, 112], 6, [117], 12, x100, true, false⟩]).kv
     (getOrderByExternalID s 1 x100).map (·.id) = some 1 ∧
     getOrderByExternalID s 1 (List.replicate 99 121) = none ∧
     getOrderByExternalID s 1 (List.replicate 101 121) = none := by decide
@@ -359,6 +366,56 @@ theorem payment_listed_under_current_target_only {s : Store} (hinv : IndexInv s)
     obtain ⟨hs, he⟩ := hh.record_key hp
     subst hs he
     exact ⟨_, hh.pay_indexed p hp _ (mem_paymentIndexEntries.mpr ⟨ht, rfl⟩)⟩
+
+/-- **Writing a payment lists it under its target, whatever was stored before** — another target, no
+target, the same target, or the same ACCOUNT written in the other bech32 spelling (then the index entry to
+delete and the one to write are the same key; `setPaymentInStore` deletes first and writes last). -/
+theorem setPayment_lists_current_target {s : Store} (hinv : IndexInv s) (p : Payment) (ht : p.target ≠ []) :
+    (setPaymentInStore s p).get (idxTargetToPayment p.target p.source p.ext) = some .empty := by
+  rw [get_setPaymentInStore (indexInvF_iff.mp hinv).2,
+    if_neg (by simp [idxTargetToPayment, keyPayment]), if_pos (mem_payKeys.mpr ⟨ht, rfl⟩)]
+
+/-- **A target change to the account the payment already has, re-spelled, keeps the payment listed**: when
+the stored target is the upper-case spelling of account `t`, `MsgChangePaymentTarget` to `t` is accepted
+(the "already has target" guard compares strings), the record now carries the canonical spelling, and the
+payment is still listed under `t` (the checker's `payment_missing_target_index` /
+`payments_by_target_missing` on the implementation's dump and listings). -/
+theorem respelled_target_stays_listed {s : Store} (hinv : IndexInv s) {src e t : Bytes} {p : Payment}
+    (hp : s.get (keyPayment src e) = some (.payment p)) (htgt : p.target = t) (hup : p.targetUp = true)
+    (ht : t ≠ []) (hsrc : src ≠ []) (hlen : e.length ≤ 100) :
+    ∃ s', updatePaymentTarget s src e t = some s' ∧
+      s'.get (keyPayment src e) = some (.payment { p with targetUp := false }) ∧
+      s'.get (idxTargetToPayment t src e) = some .empty ∧ IndexInv s' := by
+  have hh := indexInvF_iff.mp hinv
+  obtain ⟨hs, he⟩ := hh.2.record_key hp
+  have hget : getPaymentFromStore s src e = some p := by unfold getPaymentFromStore; rw [hp]
+  have hu : updatePaymentTarget s src e t =
+      some (setPaymentInStore s { p with target := t, targetUp := false }) := by
+    unfold updatePaymentTarget
+    rw [if_neg (by rintro (h | h); exact hsrc h; omega), hget]
+    simp [hup]
+  have hq : ({ p with target := t, targetUp := false } : Payment) = { p with targetUp := false } := by
+    subst htgt; rfl
+  refine ⟨_, hu, ?_, ?_, ?_⟩
+  · rw [get_setPaymentInStore hh.2, hq]
+    simp only [hs, he, ↓reduceIte]
+  · have := setPayment_lists_current_target hinv { p with target := t, targetUp := false } ht
+    simpa [hs, he] using this
+  · exact indexInvF_iff.mpr ⟨hh.1.of_touches (touches_setPaymentInStore hh.2 _) (by simp [payHeads]),
+      payInv_setPaymentInStore hh.2 _⟩
+
+/-- non-vacuity, through the messages: a payment created with its target `[66]` in the upper-case spelling;
+the target is "changed" to the same account; a plain repeat of that change is then refused; the payment
+is listed under `[66]` throughout, and the by-target scan finds it. -/
+example :
+    let s0 := (run init [.pay ⟨[65], 3, [66], 0, [120], false, true⟩]).kv
+    let s1 := (run init [.pay ⟨[65], 3, [66], 0, [120], false, true⟩, .payTarget [65] [120] [66]]).kv
+    s0.has (idxTargetToPayment [66] [65] [120]) = true ∧
+    getPaymentFromStore s1 [65] [120] = some ⟨[65], 3, [66], 0, [120], false, false⟩ ∧
+    s1.has (idxTargetToPayment [66] [65] [120]) = true ∧
+    (getPaymentsForTargetAndSource s1 [66] [65]).length = 1 ∧
+    updatePaymentTarget s1 [65] [120] [66] = none ∧
+    rejectPayment s0 [66] [65] [120] = none ∧ (rejectPayment s1 [66] [65] [120]).isSome = true := by decide
 
 /-- **A market id identifies at most one market**: after every history the known-market entries and
 the market accounts are the same ids, each once … -/
@@ -571,8 +628,8 @@ theorem byAsset_lists_prefix_denoms_before_fix {s : Store} (hinv : IndexInv s) (
 /-- the history of the witness: one market, an ask for `apple` (order 1), an ask for `apples` (order 2) -/
 def appleHistory : List Op :=
   [.mkMarket 0 "m",
-   .create ⟨0, false, 1, [65], [97, 112, 112, 108, 101], 5, [117, 115, 100], 10, [], true⟩,
-   .create ⟨0, false, 1, [65], [97, 112, 112, 108, 101, 115], 5, [117, 115, 100], 10, [], true⟩]
+   .create ⟨0, false, 1, [65], [97, 112, 112, 108, 101], 5, [117, 115, 100], 10, [], true, false⟩,
+   .create ⟨0, false, 1, [65], [97, 112, 112, 108, 101, 115], 5, [117, 115, 100], 10, [], true, false⟩]
 
 /-- BEFORE THE FIX (commit bdda88322) the by-asset lookup was NOT exact: after `appleHistory` the
 historical scan for asset `apple` lists order 2, whose asset denom is `apples` (finding
@@ -609,6 +666,86 @@ theorem getOrder_iff {s : Store} (hinv : IndexInv s) (id : UInt64) (o : Order) :
     getOrderFromStore s id = some o ↔ s.get (keyOrder id) = some (.order o) :=
   ⟨fun h => (getOrderFromStore_eq (indexInvF_iff.mp hinv).1 h).1,
    fun h => getOrderFromStore_of_get h ((indexInvF_iff.mp hinv).1.record_id h)⟩
+
+/-! ### governance closure -/
+
+/-- **A closed market has no orders left**: after `MsgGovCloseMarket` no order record of that market
+remains — whether or not order creation had been switched off before (the flag updates inside
+`CloseMarket` may fail; their result is discarded and the orders are cancelled in any case).  With
+`IndexInv` after the closure (`closeMarket_keeps_inv`) no lookup lists such an order either
+(`closeMarket_byMarket_empty`; the checker's `closed_market_has_orders` / `closed_market_lists_orders`). -/
+theorem closeMarket_leaves_no_orders {s : Store} (hinv : IndexInv s) (m : UInt32) (id : UInt64) (o : Order)
+    (h : (closeMarket s m).get (keyOrder id) = some (.order o)) : o.market ≠ m := by
+  intro hm
+  rw [closeMarket_eq, (touches_releaseAll _ m).eq_of_head (head_keyOrder id) (by simp),
+    cancelAllOrdersForMarket_eq] at h
+  have hinv2 : IndexInv (closeFlags s m) := IndexInv.of_touches hinv (touches_closeFlags s m) (by simp)
+  obtain ⟨_, hsub, hnone⟩ := cancelFold_spec (iterateOrderIndex (closeFlags s m) (prefixMarketToOrder m)) _ hinv2
+  have hrec := hsub id _ h
+  have hmem : id ∈ (iterateOrderIndex (closeFlags s m) (prefixMarketToOrder m)).map (·.1) :=
+    (byMarket_exact hinv2 m id).mpr ⟨o, hrec, hm⟩
+  obtain ⟨e, he, rfl⟩ := List.mem_map.mp hmem
+  rw [hnone e he] at h
+  cases h
+
+theorem closeMarket_keeps_inv {s : Store} (hinv : IndexInv s) (m : UInt32) : IndexInv (closeMarket s m) :=
+  (opOK_closeMarket s m).inv hinv
+
+/-- … so the by-market lookup of a closed market is empty … -/
+theorem closeMarket_byMarket_empty {s : Store} (hinv : IndexInv s) (m : UInt32) :
+    iterateOrderIndex (closeMarket s m) (prefixMarketToOrder m) = [] := by
+  cases hl : iterateOrderIndex (closeMarket s m) (prefixMarketToOrder m) with
+  | nil => rfl
+  | cons e r =>
+    exfalso
+    have hmem : e.1 ∈ (iterateOrderIndex (closeMarket s m) (prefixMarketToOrder m)).map (·.1) := by
+      rw [hl]; simp
+    obtain ⟨o, ho, hm⟩ := (byMarket_exact (closeMarket_keeps_inv hinv m) m e.1).mp hmem
+    exact closeMarket_leaves_no_orders hinv m e.1 o ho hm
+
+/-- … no order of the market is found by an external id … -/
+theorem closeMarket_byExternalId_none {s : Store} (hinv : IndexInv s) (m : UInt32) (x : Bytes) :
+    getOrderByExternalID (closeMarket s m) m x = none := by
+  cases hg : getOrderByExternalID (closeMarket s m) m x with
+  | none => rfl
+  | some o =>
+    exfalso
+    have hx : x ≠ [] ∧ x.length ≤ 100 := by
+      unfold getOrderByExternalID at hg
+      split_ifs at hg with hc
+      exact ⟨fun h => hc (Or.inl h), by have := fun h => hc (Or.inr h); omega⟩
+    obtain ⟨ho, hm, _⟩ := (getOrderByExternalID_iff (closeMarket_keeps_inv hinv m) m x hx.1 hx.2 o).mp hg
+    exact closeMarket_leaves_no_orders hinv m o.id o ho hm
+
+/-- … and order and commitment creation are off afterwards, whatever the flags were before. -/
+theorem closeMarket_disables_creation (s : Store) (m : UInt32) :
+    isMarketAcceptingOrders (closeMarket s m) m = false ∧ isMarketAcceptingCommitments (closeMarket s m) m = false := by
+  obtain ⟨h1, h2⟩ := closeFlags_off s m
+  have t : Touches (closeFlags s m) (closeMarket s m) (orderHeads ++ [99]) := by
+    rw [closeMarket_eq]
+    exact ((cancelAll_good _ m authority).2.1.mono (fun b hb => List.mem_append_left _ hb)).trans
+      ((touches_releaseAll _ m).mono (fun b hb => List.mem_append_right _ hb))
+  constructor
+  · unfold isMarketAcceptingOrders Store.has at h1 ⊢
+    rw [t.eq_of_head (head_keyNotAccepting m) (by simp [orderHeads])]; exact h1
+  · unfold isMarketAcceptingCommitments Store.has at h2 ⊢
+    rw [t.eq_of_head (head_keyAcceptingCommitments m) (by simp [orderHeads])]; exact h2
+
+/-- non-vacuity, the paused market: two orders, order creation switched off by the admin, then the
+governance closure — both orders are gone from the records and from every lookup; a market closed while
+still accepting orders (market 2) likewise. -/
+example :
+    let ops : List Op := [.mkMarket 0 "a", .mkMarket 0 "b",
+      .create ⟨0, false, 1, [65], [97, 112, 112], 6, [117], 12, [120], true, false⟩,
+      .create ⟨0, true, 1, [66], [97, 112, 112], 2, [117], 6, [], true, true⟩,
+      .create ⟨0, false, 2, [65], [97, 112, 112], 6, [117], 12, [120], true, false⟩]
+    let s0 := (run init ops).kv
+    let s := (run init (ops ++ [.setAccepting 1 false admin, .closeMarket 1, .closeMarket 2])).kv
+    (iterateOrderIndex s0 (prefixMarketToOrder 1)).length = 2 ∧
+    isMarketAcceptingOrders (run init (ops ++ [.setAccepting 1 false admin])).kv 1 = false ∧
+    orderRecords s = [] ∧ iterateOrderIndex s (prefixMarketToOrder 1) = [] ∧
+    iterateOrderIndex s (prefixAddressToOrder [65]) = [] ∧ getOrderByExternalID s 1 [120] = none ∧
+    getOrderByExternalID s 2 [120] = none := by decide
 
 /-! ## Part C — paging through a listing -/
 
